@@ -184,6 +184,16 @@ func (c *skCtx) stmt(s ast.Stmt) []string {
 		if v.Init != nil {
 			out = append(out, c.stmt(v.Init)...)
 		}
+		// calls in the loop condition run before every iteration; a poll of the close channel
+		// there is a buried poll (44): it ends the loop instead of returning the closed error
+		if v.Cond != nil {
+			for _, cc := range callsIn(v.Cond) {
+				if cc == "KCall 21" {
+					cc = "KCall 44"
+				}
+				out = append(out, cc)
+			}
+		}
 		return append(out, "KLoop ("+c.block(v.Body.List)+")")
 	case *ast.RangeStmt:
 		return []string{"KLoop (" + c.block(v.Body.List) + ")"}
@@ -234,6 +244,24 @@ func returnsErrClosed(b *ast.BlockStmt) bool {
 	}
 	se, ok := rs.Results[len(rs.Results)-1].(*ast.SelectorExpr)
 	return ok && se.Sel.Name == "ErrClosed"
+}
+
+// pollsInFuncLits counts isClosed calls that occur inside function literals of the body.
+func pollsInFuncLits(b *ast.BlockStmt) int {
+	n := 0
+	ast.Inspect(b, func(x ast.Node) bool {
+		if fl, ok := x.(*ast.FuncLit); ok {
+			ast.Inspect(fl.Body, func(y ast.Node) bool {
+				if ce, ok := y.(*ast.CallExpr); ok && calleeName(ce.Fun) == "isClosed" {
+					n++
+				}
+				return true
+			})
+			return false
+		}
+		return true
+	})
+	return n
 }
 
 // endsInReturn: the block's last statement is a return
@@ -315,6 +343,11 @@ func skel(repo string) {
 			}
 		}
 		body := c.block(fd.Body.List)
+		// a poll of the close channel inside a function literal (a visitor, a deferred closure)
+		// cannot return the closed error from the enclosing routine: event 44
+		if pollsInFuncLits(fd.Body) > 0 {
+			body = strings.Replace(body, "KSeq [", "KSeq [KCall 44; ", 1)
+		}
 		fmt.Fprintf(&out, "\n(* %s *)\nDefinition sk_%s : sk :=\n  %s.\n", filepath.Base(fset.Position(fd.Pos()).Filename), strings.ReplaceAll(t, ".", "_"), body)
 	}
 }
